@@ -2,10 +2,23 @@
 from .progfam import *
 
 
+def _layouts(cs):
+    """Token separators and, for the single-space and one-token-per-line layouts, text in front of the first token
+    (blank lines, indentation, a comment line): positions are relative to the real start of the file."""
+    out = layout_variants(cs, ("debug",), [" ", "tight", "\n", "\t ", "\n\n"])
+    extra = []
+    for i, c in enumerate(out):
+        if c.get("family") == "debug" and c.get("sep") in (" ", "\n"):
+            d = dict(c)
+            d["lead"] = ("\n\n", "   ", "// head\n", "\r\n\t")[i % 4]
+            extra.append(d)
+    return out + extra
+
+
 def run(tier, seed):
     return run_prog_property(
         "C14", ["debug", "compile", "deep", "fold", "forwhile"], tier, seed, trace_fams=("debug",),
-        expand=lambda cs: layout_variants(cs, ("debug",), [" ", "tight", "\n", "\t ", "\n\n"]),
+        expand=_layouts,
         rule="(1) Behaviour neutrality: every program of the families is compiled with and without debug symbols and run on every "
              "witness assignment; both builds must give the verdict of the source semantics (model invariant DebugNeutral). "
              "(2) Markers: MC_Debug.tla places 16 tracked calls (dbg! of variable / literal / tuple / call / block / nested dbg!, "
